@@ -550,6 +550,9 @@ func canonVal(v Val) string {
 // CanonOpts controls the canonical description.
 type CanonOpts struct {
 	FillDirDefaults bool // directive uses are compared after filling the directive's argument defaults (C16)
+	// FillInputs: input-object constants of directives (definition defaults, use arguments) get the defaults of their input
+	// types filled in, as the loader's coercion does - for the REFERENCE side only (what is read back from a root is compared as it is)
+	FillInputs bool
 	NoDesc          bool
 }
 
@@ -564,7 +567,19 @@ func (s *Schema) canonDirs(ds []DirUse, o CanonOpts) string {
 			if dd := s.Directive(d.Name); dd != nil {
 				for _, a := range dd.Args {
 					if _, has := args[a.Name]; !has && a.HasDef {
-						args[a.Name] = canonVal(a.Default)
+						if o.FillInputs {
+							args[a.Name] = canonVal(s.fillVal(a.Type, a.Default))
+						} else {
+							args[a.Name] = canonVal(a.Default)
+						}
+					}
+				}
+				// input objects given to the use get the defaults of their type as well (the loader coerces them)
+				for _, ua := range d.Args {
+					for _, a := range dd.Args {
+						if a.Name == ua.Name && o.FillInputs {
+							args[ua.Name] = canonVal(s.fillVal(a.Type, ua.Value))
+						}
 					}
 				}
 			}
@@ -590,12 +605,67 @@ func (s *Schema) canonDirs(ds []DirUse, o CanonOpts) string {
 	return strings.Join(parts, "")
 }
 
+// fillVal fills the defaults of input object types into a constant of type t (what coercion does to it).
+func (s *Schema) fillVal(t *T, v Val) Val {
+	if t == nil || v == nil {
+		return v
+	}
+	switch t.K {
+	case world.TNonNull:
+		return s.fillVal(t.Of, v)
+	case world.TList:
+		if l, ok := v.([]interface{}); ok {
+			out := make([]interface{}, len(l))
+			for i, e := range l {
+				out[i] = s.fillVal(t.Of, e)
+			}
+			return out
+		}
+		return v
+	}
+	m, ok := v.(map[string]interface{})
+	var def *Def
+	for _, d := range s.Defs {
+		if d.Kind == KInput && d.Name == t.Name && !d.Extend {
+			def = d
+		}
+	}
+	if !ok || def == nil {
+		return v
+	}
+	out := map[string]interface{}{}
+	for k, e := range m {
+		out[k] = e
+	}
+	for _, d := range s.Defs {
+		if d.Kind != KInput || d.Name != t.Name {
+			continue
+		}
+		for _, f := range d.Fields {
+			if e, has := out[f.Name]; has {
+				out[f.Name] = s.fillVal(f.Type, e)
+			} else if f.HasDef {
+				out[f.Name] = s.fillVal(f.Type, f.Default)
+			}
+		}
+	}
+	return out
+}
+
 func (s *Schema) canonArgs(as []*Arg, o CanonOpts) string {
+	return s.canonArgsOf(as, o, false)
+}
+
+func (s *Schema) canonArgsOf(as []*Arg, o CanonOpts, directiveDef bool) string {
 	parts := make([]string, len(as))
 	for i, a := range as {
 		p := a.Name + ":" + a.Type.String()
 		if a.HasDef {
-			p += "=" + canonVal(a.Default)
+			if directiveDef && o.FillInputs {
+				p += "=" + canonVal(s.fillVal(a.Type, a.Default)) // the defaults of a directive definition are coerced when it is validated
+			} else {
+				p += "=" + canonVal(a.Default)
+			}
 		}
 		if !o.NoDesc && a.Desc != "" {
 			p += fmt.Sprintf(" desc=%q", a.Desc)
@@ -669,7 +739,7 @@ func (s *Schema) Canonical(o CanonOpts) string {
 		case KDirective:
 			ls := append([]string{}, d.Locations...)
 			sort.Strings(ls)
-			b.WriteString(m.canonArgs(d.Args, o) + " on " + strings.Join(ls, "|"))
+			b.WriteString(m.canonArgsOf(d.Args, o, true) + " on " + strings.Join(ls, "|"))
 		}
 		lines = append(lines, b.String())
 	}
